@@ -2,6 +2,7 @@ package c06
 
 import (
 	"fmt"
+	"strings"
 
 	apiv1 "k8s.io/api/core/v1"
 	"k8s.io/apimachinery/pkg/types"
@@ -58,6 +59,18 @@ func properPrefix(name string) string {
 	return n
 }
 
+// hyphenAligned finds another (namespace, name) pair with the same "namespace-name" concatenation: the last label of a
+// hyphenated namespace moves into the name, or the first label of a hyphenated name moves into the namespace.
+func hyphenAligned(ns, name string) (string, string, bool) {
+	if i := strings.LastIndex(ns, "-"); i > 0 {
+		return ns[:i], ns[i+1:] + "-" + name, true
+	}
+	if i := strings.Index(name, "-"); i > 0 {
+		return ns + "-" + name[:i], name[i+1:], true
+	}
+	return "", "", false
+}
+
 // grantFor draws a ReferenceGrant for a cross-namespace reference: correct, or with exactly one
 // near miss, optionally padded with decoy from/to entries (the cross product must not create a hit).
 func (s *Scenario) grantFor(r *rng.R, c crossRef, idx int) *v1beta1.ReferenceGrant {
@@ -66,7 +79,7 @@ func (s *Scenario) grantFor(r *rng.R, c crossRef, idx int) *v1beta1.ReferenceGra
 	ns := c.toNS
 	emptyName := false
 	kinds := []string{"Gateway", "HTTPRoute", "GRPCRoute", "TLSRoute"}
-	variant := r.Intn(23)
+	variant := r.Intn(26)
 	switch variant {
 	case 0, 1, 2:
 		s.tag("grant:exact-all-names")
@@ -133,6 +146,18 @@ func (s *Scenario) grantFor(r *rng.R, c crossRef, idx int) *v1beta1.ReferenceGra
 		// same length, last character differs
 		to.Name = c.toName[:len(c.toName)-1] + "z"
 		s.tag("miss:to-name-same-length")
+	case 21, 22, 23:
+		// namespace/name aligned around a hyphen: the grant sits in ANOTHER namespace N1 and names another object name1,
+		// with N1 + "-" + name1 == toNS + "-" + toName (grant in `team` for `a-svc0` vs reference to `team-a/svc0`; grant in
+		// `infra-cert` for `a` vs reference to `infra/cert-a`). It permits nothing for the reference.
+		if n1, name1, ok := hyphenAligned(c.toNS, c.toName); ok {
+			ns = n1
+			to.Name = name1
+			s.tag("miss:hyphen-aligned-namespace-name")
+		} else {
+			s.tag("grant:none")
+			return nil
+		}
 	default:
 		s.tag("grant:none")
 		return nil
